@@ -289,6 +289,8 @@ class Executor:
                 return Sc("O", f"({self.opaque_attrs[n.attr]} {materialise(base)})")
             if isinstance(base, (Sc, Num, Vec)) and n.attr == "dtype":
                 return Static("dtype")
+            if isinstance(base, (Sc, Num)) and n.attr == "shape":
+                return Static(())
             if isinstance(base, (Sc, Num)) and n.attr == "ndim":
                 return Num(0)
             if isinstance(base, Vec) and n.attr == "ndim":
@@ -339,6 +341,13 @@ class Executor:
             for v in vals[1:]:
                 out = self.bbin(f, out, v, n)
             return out
+        if isinstance(n, ast.Compare) and len(n.ops) == 2:
+            # a < b < c  ==  (a < b) and (b < c)
+            first = ast.Compare(left=n.left, ops=[n.ops[0]], comparators=[n.comparators[0]])
+            second = ast.Compare(left=n.comparators[0], ops=[n.ops[1]], comparators=[n.comparators[1]])
+            ast.copy_location(first, n); ast.copy_location(second, n)
+            a, b = self.expr(first, sc), self.expr(second, sc)
+            return lift(lambda x, y: self.bbin("andb", x, y, n), [a, b], n)
         if isinstance(n, ast.Compare):
             if len(n.ops) != 1:
                 fail(n, "chained comparison")
@@ -351,6 +360,8 @@ class Executor:
             ops = {ast.LtE: "<=", ast.Lt: "<", ast.GtE: ">=", ast.Gt: ">", ast.Eq: "==", ast.NotEq: "!="}
             if type(n.ops[0]) not in ops:
                 fail(n, "unsupported comparison")
+            if isinstance(a, Static) and isinstance(b, Static) and type(n.ops[0]) in (ast.Eq, ast.NotEq):
+                return Static((a.v == b.v) == isinstance(n.ops[0], ast.Eq))
             return lift(lambda x, y: sc_cmp(ops[type(n.ops[0])], x, y, n), [a, b], n)
         if isinstance(n, ast.IfExp):
             c = self.expr(n.test, sc)
@@ -560,6 +571,8 @@ class Executor:
                     return x
                 fail(n, "unsupported cast")
             return lift(cast, [recv], n)
+        if name == "squeeze" and is_scalar(recv) and not args:
+            return recv
         if name in ("sum", "mean") and isinstance(recv, Vec) and not args:
             return reduce_vec(name, recv, n)
         if name == "reshape" and isinstance(recv, Vec) and len(args) == 2 and ast.unparse(args[0]) == "-1":
@@ -958,6 +971,9 @@ BUILTIN_PRIMS = {
     "jnp.broadcast_to": Prim(lambda ex, n, a, k: a[0] if len(a) == 2 and not k else fail(n, "broadcast_to form")),
     "jnp.isinf": Prim(lambda ex, n, a, k: Sc("B", "false") if len(a) == 1 and is_scalar(a[0]) else fail(n, "isinf of a non-scalar")),
     "jnp.all": Prim(lambda ex, n, a, k: a[0]),
+    "jnp.array_equal": Prim(lambda ex, n, a, k: sc_cmp("==", a[0], a[1], n) if len(a) == 2 and not k and is_scalar(a[0]) and is_scalar(a[1]) else fail(n, "array_equal of non-scalars")),
+    "jnp.floor": Prim(lambda ex, n, a, k: Sc("R", f"(inject_Z (Qfloor {to_sc(a[0], 'R', n).t}))") if CFG["scope"] == "Q" and len(a) == 1 and is_scalar(a[0])
+                      else fail(n, "floor outside the rational carrier")),
     "jnp.nan": Static("nan"), "jnp.pi": Sc("R", "PI"), "float": Static("float"), "int": Static("int"), "bool": Static("bool"),
 }
 
